@@ -35,6 +35,9 @@ def extract(spec, text):
     if len(spec.structs) != 1:
         raise NotANest("cascade")
     st = spec.structs[0]
+    held = set(v for t in st["terms"] for f in t["factors"] if f[0] == "T" for a in f[2] for _, v in a)
+    if any(a[0][1] not in held for a in st["out_idx"]):
+        raise NotANest("output-only rank")
     sels = []
     for t in st["terms"]:
         if t["take"] is not None and any(f[0] != "T" for f in t["factors"]):
